@@ -59,7 +59,49 @@ def run_impl(cases):
     return out
 
 
+def text_inputs(seed, tier):
+    """responses that carry TEXT the decoders take apart (iSCSI TransportIDs in READ FULL STATUS, SCSI name string designators): long
+    runs of name characters, well-formed and broken separators / tails — the inputs on which text matching may do super-linear work"""
+    rng = random.Random(seed ^ 0x7E87)
+    texts = []
+    for prefix in ("iqn.", "eui.", "naa.", "iqn.2001-04.com.", ""):
+        for n in (8, 16, 24, 26):
+            for tail in ("", ",i,0x", ",i,0x12zz", ",i,0x000000000000!", ",I,0x1234", ",i,0x" + "f" * 12, "\x80", ":" + "-" * 6):
+                texts.append(prefix + rng.choice("ab0_-") * n + tail)
+    rng.shuffle(texts)
+    texts = texts[:60 if tier == "quick" else len(texts)]
+    cases = []
+    for t in texts:
+        raw = t.encode("latin-1") + b"\0"
+        raw += b"\0" * (-len(raw) % 4)
+        for fmt in (0, 1):
+            tid = bytes([(fmt << 6) | 5, 0]) + len(raw).to_bytes(2, "big") + raw
+            desc = bytes(8) + bytes(4) + bytes([1, 0x15]) + bytes(4) + (1).to_bytes(2, "big") + len(tid).to_bytes(4, "big") + tid
+            cases.append(["prin_full", list((7).to_bytes(4, "big") + len(desc).to_bytes(4, "big") + desc)])
+        des = bytes([0x53, 0x08, 0, len(raw)]) + raw                  # code set UTF-8, designator type 8 (SCSI name string)
+        cases.append(["inquiry_vpd", list(bytes([0, 0x83]) + len(des).to_bytes(2, "big") + des)])
+    return cases
+
+
+def run_timed(cases, budget=8.0):
+    """CPU time per call, each batch in its own process under a deadline; a batch that misses it is halved until the call that does not
+    come back is found (work inside C code cannot be interrupted from within)"""
+    if not cases:
+        return []
+    try:
+        return vlib.run_impl("corr/terminate_impl.py", cases, args=["--timed"], timeout=int(budget + 0.02 * len(cases) + 5))
+    except Exception:  # noqa
+        if len(cases) == 1:
+            return [["timeout", budget]]
+        h = len(cases) // 2
+        return run_timed(cases[:h], budget) + run_timed(cases[h:], budget)
+
+
 def replay(obj):
+    if obj.get("kind") == "c11-time":
+        r = run_timed([[obj["decoder"], obj["buffer"]]])[0]
+        bad = r[0] in ("timeout", "budget") or r[1] > 1.0
+        return not bad, "decoder %s on the %d-byte buffer: %s, %.2f s of CPU time" % (obj["decoder"], len(obj["buffer"]), r[0], r[1])
     if obj.get("kind") != "c11-buffer":
         return False, "replay names a broken obligation, not an input: %s" % obj.get("what")
     r = run_impl([[obj["decoder"], obj["buffer"]]])[0]
@@ -94,6 +136,25 @@ def run(rep, tier, seed, summary):
             seen.add(c[0])
             hits.append(dict(kind="c11-buffer", id="%s does not terminate within the linear budget" % c[0], decoder=c[0], buffer=c[1],
                              observed="%s on a %d-byte buffer: still running after %d source lines (budget %d)" % (c[0], len(c[1]), r[1], r[2])))
+    # CPU time (no tracer): the malformed stream again plus the text-bearing responses
+    tcases = text_inputs(seed, tier) + cases[::7 if tier == "quick" else 2]
+    tres = []
+    for i in range(0, len(tcases), 25):         # in slices: two calls that do not come back are enough to report, the rest is skipped
+        if sum(1 for r in tres if r[0] in ("timeout", "budget") or r[1] > 1.0) >= 2:
+            tres += [["skipped", 0.0]] * len(tcases[i:i + 25])
+        else:
+            tres += run_timed(tcases[i:i + 25])
+    slow = [(c, r) for c, r in zip(tcases, tres) if r[0] in ("timeout", "budget") or r[1] > 1.0]
+    rep.suite("every decoder under a CPU-time budget (1 s per call on buffers of at most 2 KiB; each batch in its own process under a deadline): "
+              "the malformed stream and responses carrying text (iSCSI TransportIDs, SCSI name strings: long runs, broken separators)",
+              len(tcases), len(slow), samples=[dict(decoder=tcases[0][0], buffer=tcases[0][1][:48])],
+              distribution=dict(max_cpu_seconds=max([r[1] for r in tres] or [0]), text_cases=len(tcases) - len(cases[::7 if tier == "quick" else 2])))
+    for c, r in sorted(slow, key=lambda cr: len(cr[0][1])):
+        if ("t", c[0]) not in seen:
+            seen.add(("t", c[0]))
+            hits.append(dict(kind="c11-time", id="%s does not come back within the time budget" % c[0], decoder=c[0], buffer=c[1],
+                             observed="%s on a %d-byte buffer: %s after %.1f s of CPU time (linear work on that many bytes takes milliseconds)" % (
+                                 c[0], len(c[1]), "did not return" if r[0] == "timeout" else r[0], r[1])))
     new = [h for h in hits if h["id"] not in known]
     for h in hits:
         if h["id"] in known:
